@@ -13,9 +13,13 @@ import common as C
 
 sys.path.insert(0, os.path.join(C.VERIF, 'translate'))
 import py2coq  # noqa: E402
+import rewards2coq  # noqa: E402
 
-OUT = os.path.join(C.THEORIES, 'gen', 'CoalModelsGen.v')
-EQUIV = os.path.join(C.THEORIES, 'proofs', 'GenEquiv.v')
+# one entry per translated source file: translator module, source, committed generated file, equivalence proofs
+TIES = {
+    'coalescent_models': dict(mod=py2coq, src='coalescent_models.py', gen='CoalModelsGen', equiv='GenEquiv'),
+    'rewards': dict(mod=rewards2coq, src='rewards.py', gen='RewardsGen', equiv='GenRewardsEquiv'),
+}
 
 
 def _theorem_at(path, line):
@@ -45,24 +49,28 @@ def _build_errors(out):
     return errs
 
 
-def run(res_proof: dict, pid: str = 'C14') -> None:
+def run(res_proof: dict, pid: str = 'C14', tie: str = 'coalescent_models') -> None:
     """Translate the CURRENT source.  If the translation is byte-identical to the committed
-    gen/CoalModelsGen.v, the equivalence theorems compiled by `make` (proofs/GenEquiv.vo) are about the
+    gen/<Gen>.v, the equivalence theorems compiled by `make` (proofs/<Equiv>.vo) are about the
     current source.  If it differs, the translation and a copy of proofs/GenEquiv.v (its import of the generated
     module redirected) are compiled in a private scratch directory: the in-tree files are never modified by a
     check, so concurrent checks and `git status` are unaffected.  A harmless rewrite of the source whose
     translation still satisfies every equivalence theorem passes; otherwise the theorem that no longer checks
     is named."""
-    src = os.path.join(C.REPO, 'phasegen', 'coalescent_models.py')
+    cfg = TIES[tie]
+    tr, GEN, EQ = cfg['mod'], cfg['gen'], cfg['equiv']
+    OUT = os.path.join(C.THEORIES, 'gen', GEN + '.v')
+    EQUIV = os.path.join(C.THEORIES, 'proofs', EQ + '.v')
+    src = os.path.join(C.REPO, 'phasegen', cfg['src'])
     info = {'source': src, 'translated': False, 'identical_to_committed': False, 'functions': [],
             'equivalence_checked': False}
-    res_proof['translator'] = info
+    res_proof.setdefault('translator', {})[tie] = info
     try:
-        text, funcs = py2coq.translate(open(src).read())
-    except (py2coq.Unsupported, SyntaxError, OSError) as e:
+        text, funcs = tr.translate(open(src).read())
+    except (tr.Unsupported, SyntaxError, OSError) as e:
         res_proof['errors'].append(
-            f'translate step [py2coq]: the translator failed closed on {src}: {e} - the equivalence theorems of '
-            'proofs/GenEquiv.v do not cover this source')
+            f'translate step [{tr.__name__}]: the translator failed closed on {src}: {e} - the equivalence theorems of '
+            f'proofs/{EQ}.v do not cover this source')
         res_proof['discharged'] = 0
         return
     info['translated'] = True
@@ -77,7 +85,7 @@ def run(res_proof: dict, pid: str = 'C14') -> None:
         info['equivalence_checked'] = os.path.exists(EQUIV + 'o') and \
             os.path.getmtime(EQUIV + 'o') >= os.path.getmtime(OUT)
         if not info['equivalence_checked']:
-            res_proof['errors'].append('translate step [build]: proofs/GenEquiv.vo is missing or older than gen/CoalModelsGen.v')
+            res_proof['errors'].append(f'translate step [build]: proofs/{EQ}.vo is missing or older than gen/{GEN}.v')
             res_proof['discharged'] = 0
         return
     # the source translates to something else than the committed file: check the equivalence in a scratch copy
@@ -85,40 +93,40 @@ def run(res_proof: dict, pid: str = 'C14') -> None:
     import tempfile
     d = tempfile.mkdtemp(prefix='gen_', dir=C.WORK)
     try:
-        with open(os.path.join(d, 'CoalModelsGen.v'), 'w') as fh:
+        with open(os.path.join(d, GEN + '.v'), 'w') as fh:
             fh.write(text)
         eq = open(EQUIV).read()
-        eq2 = re.sub(r'\bgen\.CoalModelsGen\b', '', eq)
+        eq2 = re.sub(r'\bgen\.' + GEN + r'\b', '', eq)
         if eq2 == eq:
-            res_proof['errors'].append('translate step: proofs/GenEquiv.v does not import gen.CoalModelsGen as expected')
+            res_proof['errors'].append(f'translate step: proofs/{EQ}.v does not import gen.{GEN} as expected')
             res_proof['discharged'] = 0
             return
-        eq2 = eq2.replace('From PG Require Import base.Ops', 'From PGS Require Import CoalModelsGen.\nFrom PG Require Import base.Ops', 1)
-        with open(os.path.join(d, 'GenEquiv.v'), 'w') as fh:
+        eq2 = eq2.replace('From PG Require Import base.Ops', f'From PGS Require Import {GEN}.\nFrom PG Require Import base.Ops', 1)
+        with open(os.path.join(d, EQ + '.v'), 'w') as fh:
             fh.write(eq2)
         base = ['coqc', '-Q', C.THEORIES, 'PG', '-Q', d, 'PGS', '-w', '-notation-overridden,-deprecated-hint-without-locality']
-        rc, out, _ = C.sh(base + [os.path.join(d, 'CoalModelsGen.v')], 600, cwd=d)
+        rc, out, _ = C.sh(base + [os.path.join(d, GEN + '.v')], 600, cwd=d)
         if rc != 0:
             res_proof['errors'].append('translate step [generated file]: the translation of the current source does not compile: '
                                        + ' '.join(out.split())[-600:])
             res_proof['discharged'] = 0
             return
-        rc, out, _ = C.sh(base + [os.path.join(d, 'GenEquiv.v')], 900, cwd=d)
+        rc, out, _ = C.sh(base + [os.path.join(d, EQ + '.v')], 900, cwd=d)
         if rc == 0:
             info['equivalence_checked'] = True
-            info['note'] = 'source translates to a different text than the committed gen/CoalModelsGen.v, but every equivalence theorem still checks'
+            info['note'] = f'source translates to a different text than the committed gen/{GEN}.v, but every equivalence theorem still checks'
             return
         broken = []
         for m in re.finditer(r'File "([^"]+)", line (\d+), characters [^\n]*\n((?:(?!File ").*\n?){0,12})', out):
             if 'Error' not in m.group(3):
                 continue
-            thm = _theorem_at(os.path.join(d, 'GenEquiv.v'), int(m.group(2)))
+            thm = _theorem_at(os.path.join(d, EQ + '.v'), int(m.group(2)))
             broken.append(thm)
             res_proof['errors'].append(
-                f'translate step [equivalence]: {thm or "(no theorem found)"} of proofs/GenEquiv.v no longer checks against the '
+                f'translate step [equivalence]: {thm or "(no theorem found)"} of proofs/{EQ}.v no longer checks against the '
                 f'translation of {src}: ' + ' '.join(m.group(3).split())[:400])
         if not broken:
-            res_proof['errors'].append('translate step [equivalence]: proofs/GenEquiv.v no longer checks: ' + out[-800:])
+            res_proof['errors'].append(f'translate step [equivalence]: proofs/{EQ}.v no longer checks: ' + out[-800:])
         info['broken'] = broken
         res_proof['discharged'] = 0
     finally:
